@@ -159,7 +159,7 @@ m('c09-twin-rename-var', 'C09', 'neutral', EXP, 'run_federated_experiment',
   "latest = checkpoint.load_latest_checkpoint(config.root_dir)\nlogging.info('resume')")
 
 # ---------------------------------------------------------------- C10 (R-PURE etc.)
-m('c10-apfl-inplace', ['C10', 'C17'], 'break', APFL, 'adaptive_personalized_federated_learning.apply',
+m('c10-apfl-inplace', ['C10'], 'break', APFL, 'adaptive_personalized_federated_learning.apply',
   "client_states = dict(server_state.client_states)", "client_states = server_state.client_states",
   expect='R-PURE')
 m('c10-agnostic-window-append', 'C10', 'break', AGN, 'agnostic_federated_averaging.server_update',
@@ -894,5 +894,62 @@ m('c16-twin-dtype-str', 'C16', 'neutral', SER, '_ndarray_to_bytes',
   "if not arr.dtype.isnative:\n  arr = arr.astype(arr.dtype.newbyteorder('='))",
   "if not arr.dtype.isnative:\n  arr = arr.byteswap().view(arr.dtype.newbyteorder('='))")
 m('c16-twin-tobytes-default', 'C16', 'neutral', SER, '_ndarray_to_bytes', "arr.tobytes('C')", "arr.tobytes(order='C')", mode='expr')
+
+# ---------------------------------------------------------------- C17
+APS = 'create_train_for_each_client.client_step'
+m('c17-apfl-no-clip', 'C17', 'break', APFL, APS,
+  "interpolation_coefficients = jax.tree_util.tree_map(lambda x: jnp.clip(x, 0, 1), interpolation_coefficients)", "pass",
+  expect='R-CLIP01')
+m('c17-apfl-clip-range', 'C17', 'break', APFL, APS, "lambda x: jnp.clip(x, 0, 1)", "lambda x: jnp.clip(x, -1, 1)", mode='expr',
+  expect='R-CLIP01')
+m('c17-apfl-clip-kwargs', 'C17', 'break', APFL, APS, "lambda x: jnp.clip(x, 0, 1)", "partial(jnp.clip, a_min=0, a_max=1)",
+  mode='expr', expect='R-API')
+m('c17-apfl-clip-before-update', 'C17', 'break', APFL, APS,
+  "interpolation_coefficients = jax.tree_util.tree_map(lambda x: jnp.clip(x, 0, 1), interpolation_coefficients)",
+  "interpolation_coefficients = jax.tree_util.tree_map(lambda x: jnp.clip(x, 0, 1), client_step_state['state'].interpolation_coefficients)",
+  expect='R-CLIP01') if False else None
+m('c17-apfl-state-for-all', 'C17', 'break', APFL, 'adaptive_personalized_federated_learning.apply',
+  "client_states = dict(server_state.client_states)",
+  "client_states = dict(server_state.client_states)\nfor cid, _, _ in clients:\n  client_states[cid] = client_default_state",
+  expect='R-PARTICIPANT')
+m('c17-apfl-state-wrong-key', 'C17', 'break', APFL, 'adaptive_personalized_federated_learning.apply',
+  "client_states[client_id] = client_output['state']", "client_states[len(client_states)] = client_output['state']",
+  expect='R-PARTICIPANT')
+m('c17-apfl-table-reset', 'C17', 'break', APFL, 'adaptive_personalized_federated_learning.apply',
+  "client_states = dict(server_state.client_states)", "client_states = {}", expect='R-PARTICIPANT.copy')
+m('c17-mimelite-unclipped-sum', 'C17', 'break', MIMELITE, 'mime_lite.apply',
+  "delta_params = tree_util.tree_clip_by_global_norm(delta_params, client_delta_clip_norm)",
+  "clipped = tree_util.tree_clip_by_global_norm(delta_params, client_delta_clip_norm)", expect='R-CLIPNORM')
+m('c17-mimelite-clip-other-norm', 'C17', 'break', MIMELITE, 'mime_lite.apply',
+  "delta_params = tree_util.tree_clip_by_global_norm(delta_params, client_delta_clip_norm)",
+  "delta_params = tree_util.tree_clip_by_global_norm(delta_params, 2 * client_delta_clip_norm)", expect='R-CLIPNORM')
+m('c17-agnostic-no-renorm', 'C17', 'break', AGN, 'update_domain_weights', "return new_domain_weights / jnp.sum(new_domain_weights)",
+  "return new_domain_weights", expect='R-SIMPLEX')
+m('c17-agnostic-no-clamp', 'C17', 'break', AGN, 'update_domain_weights',
+  "new_domain_weights = jnp.maximum(new_domain_weights, jnp.zeros_like(new_domain_weights))", "pass", expect='R-')
+m('c17-agnostic-window-grows', 'C17', 'break', AGN, 'agnostic_federated_averaging.server_update',
+  "domain_window = server_state.domain_window[1:] + [sum_domain_num]", "domain_window = server_state.domain_window + [sum_domain_num]",
+  expect='R-SIMPLEX.window')
+m('c17-agnostic-window-front', 'C17', 'break', AGN, 'agnostic_federated_averaging.server_update',
+  "domain_window = server_state.domain_window[1:] + [sum_domain_num]", "domain_window = [sum_domain_num] + server_state.domain_window[1:]",
+  expect='R-SIMPLEX.window')
+m('c17-agnostic-new-division', 'C17', 'break', AGN, 'agnostic_federated_averaging.server_update',
+  "mean_domain_loss = util.safe_div(sum_domain_loss, sum_domain_num)", "mean_domain_loss = sum_domain_loss / sum_domain_num",
+  expect='R-DIV')
+m('c17-hyp-none-dropped', 'C17', 'break', HYP, 'expectation_step',
+  "if num_examples_sum > 0:\n  cluster_delta_params.append(tree_util.tree_inverse_weight(delta_params_sum, num_examples_sum))\nelse:\n  cluster_delta_params.append(None)",
+  "cluster_delta_params.append(tree_util.tree_inverse_weight(delta_params_sum, num_examples_sum))", expect='R-HYP.none')
+m('c17-ignore-restore-from-output', 'C17', 'break', OPT, 'ignore_grads_haiku.apply',
+  "trainable_params[module_name][name] = params[module_name][name]",
+  "trainable_params[module_name][name] = trainable_params[module_name][name]", expect='R-IGNORE')
+m('c17-ignore-grads-unfiltered', 'C17', 'break', OPT, 'ignore_grads_haiku.apply',
+  "trainable_grads = hk.data_structures.map(non_trainable_to_none, grads)", "trainable_grads = grads", expect='R-IGNORE')
+m('c17-ignore-filter-inverted', 'C17', 'break', OPT, 'ignore_grads_haiku.non_trainable_to_none',
+  "if (module_name, name) in non_trainable_names:\n  return None", "if (module_name, name) not in non_trainable_names:\n  return None",
+  expect='R-IGNORE')
+m('c17-twin-clip-minmax', 'C17', 'neutral', APFL, APS, "lambda x: jnp.clip(x, 0, 1)", "lambda x: jnp.clip(x, min=0, max=1)",
+  mode='expr')
+m('c17-twin-dict-spread', 'C17', 'neutral', APFL, 'adaptive_personalized_federated_learning.apply',
+  "client_states = dict(server_state.client_states)", "client_states = {**server_state.client_states}")
 
 _E[:] = [e for e in _E if e is not None]
